@@ -38,6 +38,27 @@ var c17Ops = func() []c17Op {
 	return l
 }()
 
+// second key family: bucket paths that are string prefixes of one another (symbol A vs AB, attribute group X vs XY);
+// operation indices >= 100 address this family, a sequence stays within one family.
+var c17KeysP = []string{"A/1Min/X", "A/1Min/XY", "AB/1Min/X"}
+
+var c17OpsP = func() []c17Op {
+	var l []c17Op
+	for _, k := range c17KeysP {
+		for _, kind := range []string{"create1", "write1", "write2", "destroy", "query"} {
+			l = append(l, c17Op{kind, k})
+		}
+	}
+	return l
+}()
+
+func c17OpAt(oi int) c17Op {
+	if oi >= 100 {
+		return c17OpsP[oi-100]
+	}
+	return c17Ops[oi]
+}
+
 func (o c17Op) String() string { return o.kind + "(" + o.key + ")" }
 
 var c17Schemas = map[string][2][]string{
@@ -57,9 +78,9 @@ func init() {
 	mc.Def(mc.Check{
 		ID:    "C17",
 		Level: "model_checking",
-		Rule: "explicit-state breadth-first search: keys {A/1Min/X, A/1Min/Y, A/1H/X, B/1Min/X} x operations {create with schema 1|2, write a row of year 2021|2022, destroy, query}; " +
+		Rule: "explicit-state breadth-first search: keys {A/1Min/X, A/1Min/Y, A/1H/X, B/1Min/X} x operations {create with schema 1|2, write a row of year 2021|2022, destroy, query}, and a second search, from the state where they all exist and one level shallower, over keys whose paths are string prefixes of one another {A/1Min/X, A/1Min/XY, AB/1Min/X}; " +
 			"state = canonical (year files and header schema per bucket on the device, catalog listing); successors by replaying the operation sequence on a fresh server plus one operation; depth <=3 (thorough <=5) with de-duplication by canonical state; " +
-			"in every state: catalog listing = device scan = listing of a freshly loaded catalog on the same root, and every existing bucket can be queried. " +
+			"in every state: catalog listing = device scan = listing of a freshly loaded catalog on the same root, and every existing bucket can be looked up by key and queried. " +
 			"concurrent part: three thread sets of catalog operations (create || write-new-year; + destroy; destroy || query || create) on the real catalog, ALL interleavings with <=2 deviations (thorough 3), same invariant on the end state. non-trivial = sequences of >=2 operations / schedules with >=1 deviation",
 		Assume:   []string{"UTC", "BackgroundSync=false", "states merged by canonical form have the same futures: the canonical form holds everything the operations read (files, headers, catalog tree)"},
 		QuickMax: 6 * time.Minute, ThorMax: 30 * time.Minute,
@@ -131,15 +152,28 @@ func c17Enum(c *mc.Ctx, yield func(c17Spec)) {
 	if c.Thorough() {
 		depth = 5
 	}
+	var main, pref []int
+	for oi := range c17Ops {
+		main = append(main, oi)
+	}
+	for oi := range c17OpsP {
+		pref = append(pref, 100+oi)
+	}
+	c17BFS(c, yield, main, depth)
+	// the prefix family starts from the state in which its three buckets exist (year 2021), one level shallower
+	c17BFS(c, yield, pref, depth-1)
+}
+
+func c17BFS(c *mc.Ctx, yield func(c17Spec), ops []int, depth int) {
 	seen := map[string]bool{}
-	r0 := c17Exec(nil)
+	r0 := c17ExecF(nil, len(ops) > 0 && ops[0] >= 100)
 	seen[r0.canon] = true
 	c.State(r0.canon)
 	frontier := [][]int{nil}
 	for d := 0; d < depth && len(frontier) > 0; d++ {
 		var next [][]int
 		for _, seq := range frontier {
-			for oi := range c17Ops {
+			for _, oi := range ops {
 				if c.Expired() {
 					return
 				}
@@ -177,7 +211,7 @@ func c17Run(c *mc.Ctx, s c17Spec) {
 	if len(s.Seq) == 3 {
 		var names []string
 		for _, o := range s.Seq {
-			names = append(names, c17Ops[o].String())
+			names = append(names, c17OpAt(o).String())
 		}
 		c.Sample(map[string]any{"sequence": names, "state": r.canon})
 	}
@@ -185,7 +219,9 @@ func c17Run(c *mc.Ctx, s c17Spec) {
 
 // c17Exec replays a sequence on a fresh world and returns the canonical state of the end state
 // plus the first invariant violation met after any step.
-func c17Exec(seq []int) *c17Result {
+func c17Exec(seq []int) *c17Result { return c17ExecF(seq, len(seq) > 0 && seq[0] >= 100) }
+
+func c17ExecF(seq []int, prefixFamily bool) *c17Result {
 	world.FreshDevice()
 	w, obs := world.Start(world.Config{BackgroundSync: false})
 	if !obs.OK() {
@@ -194,8 +230,14 @@ func c17Exec(seq []int) *c17Result {
 	defer w.Close()
 	res := &c17Result{}
 	var names []string
+	if prefixFamily {
+		for _, k := range c17KeysP {
+			c17Apply(w, c17Op{"write1", k})
+		}
+		names = append(names, "[A/1Min/X, A/1Min/XY, AB/1Min/X exist]")
+	}
 	for _, oi := range seq {
-		op := c17Ops[oi]
+		op := c17OpAt(oi)
 		names = append(names, op.String())
 		pan := safely(func() { c17Apply(w, op) })
 		if pan != "" {
@@ -338,6 +380,10 @@ func c17Invariant(w *world.World, op c17Op) (string, string) {
 	}
 	sort.Strings(dks) // fixed order: map iteration order would make device reads differ between runs
 	for _, k := range dks {
+		// the server's lookup of a bucket by key (what write, info and create use to decide whether it exists)
+		if _, err := w.GetInfo(k); err != nil {
+			return "lookup-fails|" + op.kind, fmt.Sprintf("bucket %s is on disk and listed, but the catalog's lookup by key fails: %v", k, err)
+		}
 		if _, err := w.QueryAll(k); err != nil {
 			return "query-fails|" + op.kind, fmt.Sprintf("bucket %s exists but the query fails: %v", k, err)
 		}
